@@ -33,19 +33,26 @@
 (* code keeps: the chain's cumulative differentiated inputs/outputs        *)
 (* (Discipline._differentiated_*_names), each leaf's (set by the two-way   *)
 (* BFS of chain_rule.traverse_add_diff_io, only ever growing), the cached  *)
-(* MDOChain._last_diff_inouts, and the Jacobian stored with the last       *)
-(* linearization point (SimpleCache).  Request(r) is one                   *)
+(* MDOChain._last_diff_inouts, and the Jacobian held by the process's      *)
+(* cache entry (SimpleCache keeps the FIRST Jacobian stored for an input    *)
+(* point and serves it while it covers the request).  Request(r) is one    *)
 (* add_differentiated_inputs/outputs + linearize(point) call (or           *)
 (* linearize(compute_all_jacobians=True)); it recomputes the Jacobian by   *)
 (* the reverse accumulation of chain.py:117-256 as written.                *)
-(* Invariant AccIsTotal: after every request the accumulated blocks equal  *)
-(* Total on the requested pairs.                                           *)
+(* Invariants: AccIsTotal (after every request the accumulated blocks      *)
+(* equal Total on the requested pairs), RequestIndependence (they equal    *)
+(* the blocks a fresh process returns for compute_all_jacobians=True),     *)
+(* PathSumIsTotal (Total = explicit sum over data-flow paths), Shapes,     *)
+(* StructuralZeros.  On the classes where the code as read today is wrong  *)
+(* (SigClass # "plain") TLC REFUTES AccIsTotal (CheckKnown = TRUE) and the *)
+(* repaired rules (Repaired = TRUE) satisfy it.                            *)
 (***************************************************************************)
 EXTENDS Integers, Sequences, FiniteSets, TLC, Json, IOUtils, MatC09, ChainTopoDefs
 
 CONSTANTS Exhaustive,    \* TRUE: every request history over Alphabet up to MaxHist; FALSE: replay inst.hist
           MaxHist,
           FullAlphabet,  \* exhaustive mode: every non-empty subset instead of singletons and full sets
+          Repaired,      \* TRUE: the implementation-shaped model uses the REPAIRED assembly rules (fixes/C09-*.patch)
           CheckKnown     \* TRUE: AccIsTotal is demanded on every instance (used to show the defect classes at specification level)
 
 Insts == JsonDeserialize(IOEnv.C09_INPUT)
@@ -57,11 +64,17 @@ VARIABLES inst,     \* the instance (constant along a behaviour)
           cIn, cOut,        \* the process's differentiated inputs / outputs (cumulative)
           dIn, dOut,        \* per leaf
           last,             \* MDOChain._last_diff_inouts
-          jIn, jOut, jAll,  \* the request for which the stored Jacobian was computed
-          jacPt,            \* ... and its point (0: nothing stored)
-          failed,           \* the modelled code raised
+          ret,              \* the Jacobian RETURNED by the last request, described by what it was computed from:
+                            \*   [ins, outs, all, pt, di, do] (request, point, the leaves' sets at that time)
+          sto,              \* the Jacobian held by the process's SimpleCache entry (same description;
+                            \*   pt = 0: no entry, ins = {}: an entry without Jacobian)
+          failed,           \* the modelled code raised on the last request
           reqIn, reqOut     \* what the last request had to return (observation)
-vars == <<inst, hist, cIn, cOut, dIn, dOut, last, jIn, jOut, jAll, jacPt, failed, reqIn, reqOut>>
+vars == <<inst, hist, cIn, cOut, dIn, dOut, last, ret, sto, failed, reqIn, reqOut>>
+jIn == ret.ins
+jOut == ret.outs
+jAll == ret.all
+jacPt == ret.pt
 
 N == inst.n
 Var == 1..inst.nv
@@ -199,10 +212,38 @@ RCRRow(row, Jd) ==
 RCR(acc, Jd, outN) ==
     [o \in DOMAIN acc \cup (outN \cap DOMAIN Jd) |->
         IF o \in DOMAIN acc THEN (IF o \in outN THEN RCRRow(acc[o], Jd) ELSE acc[o]) ELSE Jd[o]]
+\* --- the repaired rule (fixes/C09-D18-chain-overwritten-names.patch): the derivatives w.r.t. EVERY name the
+\* discipline defines are detached from the row and replaced by derivatives w.r.t. its inputs; an output the
+\* discipline defines gets a row (possibly empty) that shadows the earlier definitions of the same name
+RCRRowRep(row, Jd, defined) ==
+    LET comp == defined \cap DOMAIN row
+        rest == [m \in DOMAIN row \ comp |-> row[m]]
+        ord == inst.ord
+        F[k \in 0..Len(ord)] ==
+            IF k = 0 THEN rest
+            ELSE LET i == ord[k]
+                     r == F[k - 1]
+                 IN  IF i \in comp /\ i \in DOMAIN Jd
+                     THEN LET cur == row[i]
+                              Ji == Jd[i]
+                          IN  [m \in DOMAIN r \cup DOMAIN Ji |->
+                                 IF m \in DOMAIN Ji
+                                 THEN (IF m \in DOMAIN r THEN MAdd(r[m], MMul(cur, Ji[m])) ELSE MMul(cur, Ji[m]))
+                                 ELSE r[m]]
+                     ELSE r
+    IN  F[Len(ord)]
+RCRRep(acc, Jd, d, outN) ==
+    [o \in DOMAIN acc \cup (outN \cap DOut(d)) |->
+        IF o \in DOMAIN acc THEN (IF o \in outN THEN RCRRowRep(acc[o], Jd, DOut(d)) ELSE acc[o])
+        ELSE (IF o \in DOMAIN Jd THEN Jd[o] ELSE EmptyFn)]
 \* MDOChain._compute_jacobian after _compute_diff_in_outs
 ChainAcc(di, do, inN, outN, pt) ==
-    LET B[m \in 0..(N - 1)] == IF m = 0 THEN LeafJac(N, di, do, pt)
-                               ELSE RCR(B[m - 1], LeafJac(N - m, di, do, pt), outN)
+    LET JN == LeafJac(N, di, do, pt)
+        B[m \in 0..(N - 1)] ==
+            IF m = 0 THEN (IF Repaired THEN [o \in DOMAIN JN \cup (outN \cap DOut(N)) |-> IF o \in DOMAIN JN THEN JN[o] ELSE EmptyFn]
+                           ELSE JN)
+            ELSE (IF Repaired THEN RCRRep(B[m - 1], LeafJac(N - m, di, do, pt), N - m, outN)
+                  ELSE RCR(B[m - 1], LeafJac(N - m, di, do, pt), outN))
         raw == B[N - 1]
         kept == [o \in DOMAIN raw |-> [i \in DOMAIN raw[o] \cap inN |-> raw[o][i]]]         \* chain.py:242-247
     IN  [o \in DOMAIN kept \cup outN |->                                                     \* _init_jacobian(fill)
@@ -214,7 +255,11 @@ ParMerge(di, do, pt) ==
     LET F[d \in 0..N] == IF d = 0 THEN EmptyFn
                          ELSE LET J == LeafJac(d, di, do, pt)
                                   a == F[d - 1]
-                              IN  [o \in DOMAIN a \cup DOMAIN J |->
+                              IN  IF Repaired     \* the last member defining an output defines its whole row
+                                  THEN [o \in DOMAIN a \cup DOMAIN J |->
+                                          IF o \in DOut(d) THEN (IF o \in DOMAIN J THEN J[o] ELSE EmptyFn) ELSE a[o]]
+                                  ELSE
+                                  [o \in DOMAIN a \cup DOMAIN J |->
                                      IF o \in DOMAIN J
                                      THEN (IF o \in DOMAIN a
                                            THEN [i \in DOMAIN a[o] \cup DOMAIN J[o] |-> IF i \in DOMAIN J[o] THEN J[o][i] ELSE a[o][i]]
@@ -230,6 +275,16 @@ AddFails(di, do, inN, pt) ==
     \E o \in ToSet(inst.osum) :
         \/ \E d \in 1..N : o \notin DOMAIN LeafJac(d, di, do, pt)                       \* KeyError
         \/ \E i \in inN : \A d \in 1..N : i \notin DOMAIN LeafJac(d, di, do, pt)[o]      \* assert
+\* repaired (fixes/C09-D18c-D18d-...): only the requested summed outputs, only the members that have the block
+AddSumRep(a, di, do, inN, outN, pt) ==
+    LET has(d, o, i) == o \in DOMAIN LeafJac(d, di, do, pt) /\ i \in DOMAIN LeafJac(d, di, do, pt)[o]
+    IN  Fill([o \in DOMAIN a \cup (ToSet(inst.osum) \cap outN) |->
+                IF o \in ToSet(inst.osum) \cap outN
+                THEN [i \in {j \in inN : \E d \in 1..N : has(d, o, j)} |->
+                        LET G[d \in 0..N] == IF d = 0 THEN Zero(Sz(o), Sz(i))
+                                             ELSE IF has(d, o, i) THEN MAdd(G[d - 1], LeafJac(d, di, do, pt)[o][i]) ELSE G[d - 1]
+                        IN  G[N]]
+                ELSE a[o]], inN, outN)
 AddSum(a, di, do, inN, pt) ==
     [o \in DOMAIN a \cup ToSet(inst.osum) |->
         IF o \in ToSet(inst.osum)
@@ -253,65 +308,73 @@ Alphabet == {[ins |-> I, outs |-> O, all |-> FALSE, pt |-> 1] :
             \cup {[ins |-> ChainIn, outs |-> ChainOut, all |-> TRUE, pt |-> 1]}
 Covers(j, inN, outN) == outN \subseteq DOMAIN j /\ \A o \in outN : inN \subseteq DOMAIN j[o]
 
-\* The Jacobian dictionary stored by the last computation (SimpleCache entry of the process): it was
-\* computed for the request (jIn, jOut) at point jacPt from the leaves' differentiated sets, which have not
-\* changed since (a request served from the cache changes nothing).  A state function rather than a
-\* variable: the blocks are recomputed where an invariant needs them.
+\* The Jacobian dictionary returned by the last request.  It is either freshly computed for the request
+\* (jIn, jOut) at point jacPt from the leaves' differentiated sets, or the one held by the cache entry of the
+\* process: SimpleCache.cache_jacobian keeps the FIRST Jacobian stored for an input point, and it is returned
+\* as long as it covers the request (discipline.py:211-221), even if a larger one was computed in between.
+\* A state function of the description `ret` rather than a variable: the blocks are recomputed where an
+\* invariant needs them.
 Prune(acc, inN, outN) == [o \in DOMAIN acc \cap outN |-> [i \in DOMAIN acc[o] \cap inN |-> acc[o][i]]]   \* discipline.py:231-239
 Jac ==
     IF ~Modelled
     THEN LET fin == Final(jacPt) IN [o \in jOut |-> [i \in jIn |-> Total(fin, o, i)]]
     ELSE IF inst.outer = "chain"
-    THEN LET acc == ChainAcc(dIn, dOut, jIn, jOut, jacPt) IN IF jAll THEN acc ELSE Prune(acc, jIn, jOut)
-    ELSE LET par == Fill(ParMerge(dIn, dOut, jacPt), jIn, jOut)
-             acc == IF inst.outer = "additive" /\ ~failed THEN AddSum(par, dIn, dOut, jIn, jacPt) ELSE par
+    THEN LET acc == ChainAcc(ret.di, ret.do, jIn, jOut, jacPt) IN IF jAll THEN acc ELSE Prune(acc, jIn, jOut)
+    ELSE LET par == Fill(ParMerge(ret.di, ret.do, jacPt), jIn, jOut)
+             acc == IF inst.outer = "additive" /\ Repaired THEN AddSumRep(par, ret.di, ret.do, jIn, jOut, jacPt)
+                    ELSE IF inst.outer = "additive" /\ ~failed THEN AddSum(par, ret.di, ret.do, jIn, jacPt) ELSE par
          IN  IF jAll THEN acc ELSE Prune(acc, jIn, jOut)
 
+NoJac(pt, n) == [ins |-> {}, outs |-> {}, all |-> FALSE, pt |-> pt, di |-> [d \in 1..n |-> {}], do |-> [d \in 1..n |-> {}]]
 Request(r) ==
     LET cIn2 == IF r.all THEN cIn ELSE cIn \cup r.ins
         cOut2 == IF r.all THEN cOut ELSE cOut \cup r.outs
         inN == IF r.all THEN ChainIn ELSE cIn2
         outN == IF r.all THEN ChainOut ELSE cOut2
-        \* discipline.py:211-221: the Jacobian cached with this point covers the request -> it is returned as is
-        hit == jacPt = r.pt /\ outN \subseteq jOut /\ inN \subseteq jIn
+        \* execute() at another point replaces the cache entry (simple_cache.py: cache_outputs)
+        sto1 == IF sto.pt = r.pt THEN sto ELSE NoJac(r.pt, N)
+        \* discipline.py:211-221: the Jacobian of the cache entry covers the request -> it is returned as is
+        hit == outN \subseteq sto1.outs /\ inN \subseteq sto1.ins
+        \* chain.py:211-216 / parallel_chain.py:168-200: the leaves' differentiated sets
+        refresh == ~(last.set /\ last.ins = inN /\ last.outs = outN)
+        tr == Traverse(inN, outN)
+        di2 == IF ~Modelled THEN dIn
+               ELSE IF inst.outer = "chain" THEN (IF refresh THEN [d \in 1..N |-> dIn[d] \cup tr[d].in] ELSE dIn)
+               ELSE [d \in 1..N |-> dIn[d] \cup (DIn(d) \cap inN)]
+        do2 == IF ~Modelled THEN dOut
+               ELSE IF inst.outer = "chain" THEN (IF refresh THEN [d \in 1..N |-> dOut[d] \cup tr[d].out] ELSE dOut)
+               ELSE [d \in 1..N |-> dOut[d] \cup (DOut(d) \cap outN)]
+        raises == Modelled /\ ~Repaired /\ ~hit /\ inst.outer = "additive" /\ AddFails(di2, do2, inN, r.pt)
+        fresh == [ins |-> inN, outs |-> outN, all |-> r.all, pt |-> r.pt, di |-> di2, do |-> do2]
     IN  /\ hist' = Append(hist, r)
         /\ cIn' = cIn2 /\ cOut' = cOut2
         /\ reqIn' = inN /\ reqOut' = outN
+        /\ failed' = raises
         /\ UNCHANGED inst
         /\ IF hit
-           THEN UNCHANGED <<dIn, dOut, last, failed, jIn, jOut, jAll, jacPt>>
-           ELSE /\ jIn' = inN /\ jOut' = outN /\ jAll' = r.all /\ jacPt' = r.pt
-                /\ IF ~Modelled
-                   THEN UNCHANGED <<dIn, dOut, last, failed>>
-                   ELSE IF inst.outer = "chain"
-                   THEN LET refresh == ~(last.set /\ last.ins = inN /\ last.outs = outN)      \* chain.py:211-216
-                            tr == Traverse(inN, outN)
-                        IN  /\ dIn' = (IF refresh THEN [d \in 1..N |-> dIn[d] \cup tr[d].in] ELSE dIn)
-                            /\ dOut' = (IF refresh THEN [d \in 1..N |-> dOut[d] \cup tr[d].out] ELSE dOut)
-                            /\ last' = [set |-> TRUE, ins |-> inN, outs |-> outN]
-                            /\ UNCHANGED failed
-                   ELSE LET di == [d \in 1..N |-> dIn[d] \cup (DIn(d) \cap inN)]               \* parallel_chain.py:168-200
-                            do == [d \in 1..N |-> dOut[d] \cup (DOut(d) \cap outN)]
-                        IN  /\ dIn' = di /\ dOut' = do
-                            /\ UNCHANGED last
-                            /\ failed' = (inst.outer = "additive" /\ AddFails(di, do, inN, r.pt))
+           THEN /\ ret' = sto1 /\ sto' = sto1
+                /\ UNCHANGED <<dIn, dOut, last>>
+           ELSE /\ dIn' = di2 /\ dOut' = do2
+                /\ last' = (IF Modelled /\ inst.outer = "chain" THEN [set |-> TRUE, ins |-> inN, outs |-> outN] ELSE last)
+                /\ ret' = (IF raises THEN NoJac(0, N) ELSE fresh)
+                \* simple_cache.py: cache_jacobian keeps the Jacobian already stored for this input point
+                /\ sto' = (IF raises \/ sto1.ins # {} THEN sto1 ELSE fresh)
 
 Init == /\ inst \in ToSet(Insts)
         /\ hist = <<>>
         /\ cIn = {} /\ cOut = {}
         /\ dIn = [d \in 1..inst.n |-> {}] /\ dOut = [d \in 1..inst.n |-> {}]
         /\ last = [set |-> FALSE, ins |-> {}, outs |-> {}]
-        /\ jIn = {} /\ jOut = {} /\ jAll = FALSE /\ jacPt = 0
+        /\ ret = NoJac(0, inst.n) /\ sto = NoJac(0, inst.n)
         /\ failed = FALSE
         /\ reqIn = {} /\ reqOut = {}
 Next == /\ Len(hist) < MaxHist
-        /\ ~failed                      \* the call raised: the history ends
         /\ IF Exhaustive THEN \E r \in Alphabet : Request(r)
            ELSE (/\ Len(hist) < Len(inst.hist)
                  /\ Request(AsReq(inst.hist[Len(hist) + 1])))
 Spec == Init /\ [][Next]_vars
 \* the exhaustive configuration identifies histories that reach the same derived state
-View == <<inst, cIn, cOut, dIn, dOut, last, jIn, jOut, jAll, jacPt, failed, reqIn, reqOut>>
+View == <<inst, cIn, cOut, dIn, dOut, last, ret, sto, failed, reqIn, reqOut>>
 
 -----------------------------------------------------------------------------
 (* Properties                                                               *)
@@ -337,6 +400,9 @@ WellFormed ==
 \* The class of the (instance, request) pair that a violation signature carries.  The classes other than
 \* "plain" are those on which the code as read today does NOT implement the specification (DESIGN.md D18
 \* and its parallel/additive relatives): TLC refutes AccIsTotal on them when CheckKnown = TRUE.
+\* an output written by two members of a parallel chain (not one of the summed outputs of an additive chain)
+DupOutput == /\ inst.outer \in {"parallel", "additive"}
+             /\ \E v \in Var \ (IF inst.outer = "additive" THEN ToSet(inst.osum) ELSE {}) : Cardinality(Prod(Topo, v)) >= 2
 SigClass ==
     IF inst.outer \in {"parallel", "additive"}
     THEN (IF inst.outer = "additive" /\ hist # <<>> /\
@@ -344,7 +410,7 @@ SigClass ==
           \* a member that is not differentiated for a summed output: it does not write it, or reads none of
           \* the requested inputs, or the summed output is not requested (additive_chain.py:92-102)
           THEN "additive_undifferentiated_member"
-          ELSE IF \E v \in Var \ (IF inst.outer = "additive" THEN ToSet(inst.osum) ELSE {}) : Cardinality(Prod(Topo, v)) >= 2
+          ELSE IF DupOutput
           THEN "duplicate_output"
           ELSE "plain")
     \* a name with two definitions along the chain: two producers, or a chain input and a producer
@@ -357,12 +423,45 @@ Agrees == LET fin == Final(jacPt)
               /\ \A o \in reqOut : \A i \in reqIn : jac[o][i] = Total(fin, o, i)
 \* after every request the accumulated Jacobian is the total derivative on the requested pairs
 AccIsTotal == (hist # <<>> /\ Modelled /\ (CheckKnown \/ ~DefectClass)) => Agrees
+\* Requesting fewer inputs/outputs, or in several successive calls, never changes a returned block: what the
+\* model returns after the history equals, on the requested pairs, what a FRESH process returns for the single
+\* request compute_all_jacobians=True.
+FreshAll(pt) ==
+    IF inst.outer = "chain"
+    THEN LET tr == Traverse(ChainIn, ChainOut)
+         IN  ChainAcc([d \in 1..N |-> tr[d].in], [d \in 1..N |-> tr[d].out], ChainIn, ChainOut, pt)
+    ELSE LET di == [d \in 1..N |-> DIn(d)]
+             do == [d \in 1..N |-> DOut(d)]
+             par == Fill(ParMerge(di, do, pt), ChainIn, ChainOut)
+         IN  IF inst.outer = "additive" THEN (IF Repaired THEN AddSumRep(par, di, do, ChainIn, ChainOut, pt)
+                                              ELSE AddSum(par, di, do, ChainIn, pt))
+             ELSE par
+RequestIndependence ==
+    (hist # <<>> /\ Modelled /\ ~failed /\ (CheckKnown \/ ~DefectClass)) =>
+        LET jac == Jac
+            all == FreshAll(jacPt)
+        IN  \A o \in reqOut : \A i \in reqIn : jac[o][i] = all[o][i]
+
+\* The abstract specification written a second way, for the sequential chain of linear leaves: the total
+\* derivative of the name v as it stands after the k first disciplines is, when discipline k writes v, the sum
+\* over its inputs of partial x total derivative of that input BEFORE k, and is unchanged by k otherwise - the
+\* sum over the data-flow paths of the products of the partials (a later writer hides the earlier ones).
+RECURSIVE TotAt(_, _, _)
+TotAt(k, v, w) ==
+    IF k = 0 THEN (IF v = w /\ v \in ChainIn THEN Ident(Sz(v)) ELSE Zero(Sz(v), Sz(w)))
+    ELSE IF v \in DOut(k)
+    THEN MSumOver(DIn(k), LAMBDA i : MMul(PM(k, v, i), TotAt(k - 1, i, w)), Zero(Sz(v), Sz(w)))
+    ELSE TotAt(k - 1, v, w)
+PathSumIsTotal ==
+    (hist = <<>> /\ Flat /\ inst.outer = "chain" /\ ~inst.poly) =>
+        LET fin == Final(1) IN \A o \in ChainOut : \A w \in ChainIn : TotAt(N, o, w) = Total(fin, o, w)
+
 \* blocks have the shape (|o|, |i|), zero blocks included
 Shapes == (hist # <<>> /\ ~failed) =>
              LET jac == Jac IN \A o \in DOMAIN jac : \A i \in DOMAIN jac[o] : Shape(jac[o][i]) = <<Sz(o), Sz(i)>>
 \* a name no requested input reaches has a zero block (the empty path sum)
 StructuralZeros ==
-    hist # <<>> =>
+    (hist # <<>> /\ ~failed) =>
        LET fin == Final(jacPt)
        IN  \A o \in reqOut : \A i \in reqIn :
               (i \notin Anc(Topo, o)) => Total(fin, o, i) = Zero(Sz(o), Sz(i))
@@ -381,5 +480,5 @@ Emit ==
     IF hist = <<>>
     THEN PrintT(<<"INST", inst.id, ChainIn, ChainOut, Classes(Topo), SigClass,
                   [p \in 1..Len(inst.points) |-> TotalTable(p)]>>)
-    ELSE PrintT(<<"REQ", inst.id, hist, reqIn, reqOut, Modelled, dIn, dOut, Agrees, SigClass, IndependentPair>>)
+    ELSE PrintT(<<"REQ", inst.id, hist, reqIn, reqOut, Modelled, dIn, dOut, Agrees, SigClass, IndependentPair, DupOutput>>)
 =============================================================================
